@@ -277,8 +277,8 @@ fn scripted_one(rt: &tokio::runtime::Runtime, scn: &[Value], serial: &mut u64, o
 
 /// One key whose TTL has lapsed but which has not been evicted yet; the TTL manager's sweep (`evict_expired_all_shards`)
 /// and one client write on a chosen path are in flight together, polled in a chosen order on a single-threaded runtime
-/// (so the order in which their messages reach the shard's mailbox is fixed); then reads.  The lapsed value is logically
-/// gone (the shards have been told the time), so the history starts from an absent key and the sweep is not an operation:
+/// (so the order in which their messages reach the shard's mailbox is fixed); then reads (a generic one first, which tells
+/// the shard the time).  The lapsed value is logically gone, so the history starts from an absent key and the sweep is not an operation:
 /// an acknowledged write must be there for the reads that follow.
 fn sweep_one(rt: &tokio::runtime::Runtime, shards: usize, path: &'static str, kind: &'static str, sweep_first: bool, extra_polls: usize, out: &mut Out) {
     let names = key_names(shards.max(2), shards);
@@ -293,10 +293,9 @@ fn sweep_one(rt: &tokio::runtime::Runtime, shards: usize, path: &'static str, ki
         // the key (and a neighbour) with a TTL that lapses; every shard is told the new time by a generic command
         let _ = exec(&st, vec![b("SET"), b(&key), b(if kind == "incr" { "40" } else { "old" }), b("PX"), b("50")]).await;
         let _ = exec(&st, vec![b("SET"), b(&names[1]), b("other"), b("PX"), b("50")]).await;
+        // (no command between the lapse and the race: any generic command would run the executor's own expiry pass and leave
+        // the sweep nothing to do)
         *clock.lock().unwrap() += 200;
-        for i in 0..16 {
-            let _ = exec(&st, vec![b("EXISTS"), b(&format!("probe{i}"))]).await;
-        }
         let waker = futures::task::noop_waker();
         let mut cx = Context::from_waker(&waker);
         let call = Call { path, subs: vec![Sub { key: key.clone(), kind, arg: if kind == "incr" { "2".into() } else { "new".into() }, argn: 2, num: kind == "incr" }] };
@@ -439,6 +438,69 @@ fn bigbatch_one(rt: &tokio::runtime::Runtime, shards: usize, n: usize, out: &mut
         }
     });
     emit_history(out, "bigbatch", json!({"shards": shards, "n": n}), &ops);
+}
+
+/// A burst: `n` calls (pipelined batches of three, single SETs on every path, GET batches of earlier keys) are all created and
+/// polled once before the shard tasks get a turn on a single-threaded runtime, so every one of them sits in the mailboxes at the
+/// same time; then all complete; then every key is read back.  Each key is written by exactly one call: an acknowledged write
+/// must be there, a refused one (error reply) must not be.
+fn burst_one(rt: &tokio::runtime::Runtime, shards: usize, n: usize, out: &mut Out) {
+    let mut ops: Vec<Done> = Vec::new();
+    rt.block_on(async {
+        let st: Arc<State> = Arc::new(make_state(shards, 64, 8));
+        let mut calls: Vec<Call> = Vec::new();
+        for i in 0..n {
+            let set = |j: usize| Sub { key: format!("u{i}:{j}"), kind: "set", arg: format!("w{i}:{j}"), argn: 0, num: false };
+            calls.push(match i % 5 {
+                0 | 1 => Call { path: "batch", subs: vec![set(0), set(1), set(2)] },
+                2 => Call { path: ["generic", "fast", "pooled"][i / 5 % 3], subs: vec![set(0)] },
+                3 => Call { path: "batch", subs: vec![set(0), set(1)] },
+                _ => Call { path: "batch", subs: (0..3).map(|j| Sub { key: format!("u{}:{j}", i - 4), kind: "get", arg: String::new(), argn: 0, num: false }).collect() },
+            });
+        }
+        let waker = futures::task::noop_waker();
+        let mut cx = Context::from_waker(&waker);
+        let mut live: Vec<(usize, Fut)> = Vec::new();
+        let mut t = 0u64;
+        for (i, call) in calls.iter().enumerate() {
+            let mut fut: Fut = Box::pin(issue(st.clone(), call.clone()));
+            t += 1;
+            ops.push(Done { id: i + 1, c: i % 7 + 1, call: call.clone(), inv: t, ret: INF, replies: None });
+            match fut.as_mut().poll(&mut cx) {
+                Poll::Ready(r) => { t += 1; ops[i].ret = t; ops[i].replies = Some(r); }
+                Poll::Pending => live.push((i, fut)),
+            }
+        }
+        for _ in 0..2000 {
+            if live.is_empty() { break; }
+            for _ in 0..4 { tokio::task::yield_now().await; }
+            let mut rest = Vec::new();
+            for (i, mut fut) in live.drain(..) {
+                match fut.as_mut().poll(&mut cx) {
+                    Poll::Ready(r) => { t += 1; ops[i].ret = t; ops[i].replies = Some(r); }
+                    Poll::Pending => rest.push((i, fut)),
+                }
+            }
+            live = rest;
+        }
+        for (i, _) in live.iter() {
+            t += 1;
+            ops[*i].ret = t;
+            ops[*i].replies = Some(vec![RespValue::err("HARNESS never completed"); ops[*i].call.subs.len()]);
+        }
+        // read everything back
+        let written: Vec<String> = calls.iter().flat_map(|c| c.subs.iter().filter(|s| s.kind == "set").map(|s| s.key.clone())).collect();
+        for (j, k) in written.iter().enumerate() {
+            let call = Call { path: if j % 2 == 0 { "generic" } else { "fast" }, subs: vec![Sub { key: k.clone(), kind: "get", arg: String::new(), argn: 0, num: false }] };
+            t += 1;
+            let inv = t;
+            let r = issue(st.clone(), call.clone()).await;
+            t += 1;
+            let id = ops.len() + 1;
+            ops.push(Done { id, c: 1, call, inv, ret: t, replies: Some(r) });
+        }
+    });
+    emit_history(out, "burst", json!({"shards": shards, "n": n}), &ops);
 }
 
 fn free_one(rt: &tokio::runtime::Runtime, seed: u64, clients: usize, nops: usize, nkeys: usize, out: &mut Out) -> bool {
@@ -601,6 +663,13 @@ pub fn main(args: &[String]) -> i32 {
                         sweep_one(&rt, shards, path, kind, sweep_first, extra, &mut out);
                     }
                 }
+            }
+        }
+        Some("burst") => {
+            let rt = tokio::runtime::Builder::new_current_thread().enable_all().build().unwrap();
+            let thorough = a.str("tier", "quick") == "thorough";
+            for (shards, n) in if thorough { vec![(1usize, 1500usize), (1, 5000), (2, 3000), (4, 9000), (1, 20000)] } else { vec![(1, 1500), (2, 3000), (1, 5000)] } {
+                burst_one(&rt, shards, n, &mut out);
             }
         }
         Some("bigbatch") => {
